@@ -186,8 +186,8 @@ func runCheck(id, tier, only string, seed, workers int, verbose, noMerge bool, s
 		r := eng.explore(h, workers)
 		results = append(results, r)
 		if verbose || true {
-			fmt.Printf("harness %-28s paths=%d ends=%v obligations=%d discharged=%d queries=%d(fallback %d) solver=%.1fs wall=%.1fs merges=%d simpq=%d ivdec=%d instrs=%d\n",
-				h.Name, r.Paths, r.EndKinds, r.Stats.Obligations, r.Stats.Discharged, r.Solver.Queries, r.Solver.Fallbacks, r.Solver.Time.Seconds(), r.Wall.Seconds(), r.Stats.Merges, r.Stats.SimpQueries, r.Stats.IntervalDecided, r.Stats.Instrs)
+			fmt.Printf("harness %-28s paths=%d ends=%v obligations=%d discharged=%d queries=%d(fallback %d) solver=%.1fs wall=%.1fs merges=%d simpq=%d ivdec=%d ivdis=%d instrs=%d\n",
+				h.Name, r.Paths, r.EndKinds, r.Stats.Obligations, r.Stats.Discharged, r.Solver.Queries, r.Solver.Fallbacks, r.Solver.Time.Seconds(), r.Wall.Seconds(), r.Stats.Merges, r.Stats.SimpQueries, r.Stats.IntervalDecided, r.Stats.IntervalDischarged, r.Stats.Instrs)
 		}
 		for _, s := range r.Inconcl {
 			inconcl = append(inconcl, h.Name+": "+s)
@@ -479,7 +479,7 @@ func writeEvidence(cfg *CheckCfg, tier string, seed int, eng *Engine, results []
 		hv := map[string]any{"name": r.Cfg.Name, "entry": r.Cfg.Func, "doc": r.Cfg.Doc, "paths": r.Paths, "path_ends": r.EndKinds,
 			"unwind": r.Cfg.Unwind, "params": r.Cfg.Params, "obligations": r.Stats.Obligations, "discharged": r.Stats.Discharged,
 			"solver_queries": r.Solver.Queries, "solver_sat": r.Solver.Sat, "solver_unsat": r.Solver.Unsat, "solver_unknown": r.Solver.Unknown,
-			"solver_time_s": r.Solver.Time.Seconds(), "oneshot_fallbacks": r.Solver.Fallbacks, "max_query_s": r.Solver.MaxQuery.Seconds(), "ite_merges": r.Stats.Merges,
+			"solver_time_s": r.Solver.Time.Seconds(), "oneshot_fallbacks": r.Solver.Fallbacks, "max_query_s": r.Solver.MaxQuery.Seconds(), "ite_merges": r.Stats.Merges, "panic_obligations_discharged_by_interval_arithmetic": r.Stats.IntervalDischarged, "pruning_queries": r.Stats.SimpQueries,
 			"reached": reached, "wall_s": r.Wall.Seconds()}
 		var vs []any
 		for _, v := range r.Violations {
